@@ -697,6 +697,22 @@ func (e *Exec) loopWriteSet(li *loopInfo) *WriteSet {
 	fx := e.fx()
 	for b := range li.blocks {
 		for _, ins := range b.Instrs {
+			// an interface call whose receiver's dynamic type is known here (code executed in
+			// place with a concrete argument) has the effects of that implementation, not of
+			// the interface's environment contract
+			if call, ok := ins.(*ssa.Call); ok && call.Call.IsInvoke() {
+				if iv, ok := e.vals[call.Call.Value].(IfaceV); ok && iv.Dyn != nil {
+					ms := e.P.Prog.MethodSets.MethodSet(iv.DynT)
+					if sel := ms.Lookup(call.Call.Method.Pkg(), call.Call.Method.Name()); sel != nil {
+						if fn := e.P.Prog.MethodValue(sel); fn != nil {
+							w.add(fx.of(fn))
+							continue
+						}
+					}
+					w.Top = true
+					continue
+				}
+			}
 			w.add(fx.ofInstr(ins))
 		}
 	}
@@ -743,9 +759,11 @@ func (e *Exec) siteAsserts(ins ssa.Instruction, callee string, args []Value, st 
 		env.args = args
 		env.block = ins.Block()
 		if inlined {
-			// the clause belongs to the function under verification: its names, entry values
-			env = root.newEnv(st, root.entry)
+			// the clause belongs to the function under verification; inside code executed in
+			// place the callee's own names are visible first, then the caller's
+			env = e.newEnv(st, root.entry)
 			env.args = args
+			env.block = ins.Block()
 		}
 		switch r := res.(type) {
 		case nil:
